@@ -181,6 +181,56 @@ def ob_hash(a0: int, b0: int, c0: int, d0: int, a1: int, b1: int, c1: int, d1: i
     return h.done(equal=eq, unequal_same_hash=(not eq and same_hash), unequal=(not eq))
 
 
+def _hashed_key(obj):
+    """what the class's own __hash__ feeds to the builtin hash(): the real __hash__ is run with the module-level
+    name `hash` rebound to a recorder (hashing a symbolic float would realise it, i.e. sample)"""
+    import sys
+
+    mod = sys.modules[type(obj).__module__]
+    rec = []
+    had = "hash" in mod.__dict__
+    old = mod.__dict__.get("hash")
+    mod.hash = lambda t: (rec.append(t), 0)[1]
+    try:
+        obj.__hash__()
+    finally:
+        if had:
+            mod.hash = old
+        else:
+            del mod.hash
+    return rec[-1] if rec else None
+
+
+def ob_hash_float(v1: float, v2: float, a0: int, a1: int) -> bool:
+    """
+    pre: -1e9 <= v1 <= 1e9 and -1e9 <= v2 <= 1e9
+    post: _
+    """
+    # hash contract of the one hashable class with a float in its key, for EVERY pair of values
+    try:
+        x = [_pick(a0, 2), _pick(a1, 2)]
+    except graph.Vacuous:
+        return True
+
+    def mk(a, v):
+        return data.Feature(term=data.Term(name=h.S(a, "n"), label=h.S(a, "l"), definition=h.S(0, "d")), value=v)
+
+    o1, o2 = mk(x[0], v1), mk(x[1], v2)
+    eq = o1 == o2
+    if h.MODEL:
+        k1, k2 = _hashed_key(o1), _hashed_key(o2)
+        if k1 is None or k2 is None or len(k1) != len(k2):
+            return h.fail("__hash__ does not hash a key")
+        same = True
+        for p_, q_ in zip(k1, k2):
+            same = same and (p_ == q_)
+    else:
+        same = hash(o1) == hash(o2)
+    if eq and not same:
+        return h.fail("equal objects with different hashes")
+    return h.done(equal=eq, unequal=(not eq))
+
+
 HASHABLE = ["Term", "Tag", "Feature", "Note", "SoundEvent", "SoundEventAnnotation", "SoundEventPrediction",
             "ClipPrediction"]
 
@@ -211,6 +261,9 @@ def plan():
             tw = ("equal", "unequal", "unequal_same_hash")
         dom = [2, 2, 5, 1] if cls == "Feature" else [2, 2, 2, 2]
         obs.append(Ob("hash-" + cls, ob_hash, "real", 1200, dict(cls=cls, dom=dom), q, twins=tw, twin_timeout=300))
+        if cls == "Feature":
+            obs.append(Ob("hash-float-Feature", ob_hash_float, "real", 600, dict(), q, twins=("equal", "unequal"),
+                          twin_timeout=300))
         obs.append(Ob("hash3-" + cls, ob_hash, "real", 6000, dict(cls=cls, dom=[3, 3, 5 if cls == "Feature" else 3, 2]),
                       ("thorough",), twins=("equal",), twin_timeout=300))
     return obs
